@@ -198,7 +198,14 @@ def main():
             for t in tops:
                 if not t.startswith("Properties_"):
                     continue
-                rc_, out_ = vlib.sh("ulimit -v 14000000; timeout 1500 coqchk -silent -o -Q . LY LY.%s" % t[:-2], cwd=vlib.COQ, timeout=1600)
+                rc_, out_ = vlib.sh("ulimit -v 14000000; timeout %d coqchk -silent -o -Q . LY LY.%s"
+                                    % (int(os.environ.get("VERIF_COQCHK_LIMIT", "2400")), t[:-2]), cwd=vlib.COQ, timeout=3000)
+                if rc_ == 124:
+                    # the independent checker is slow on the exhaustive sweeps (every code point, every short string): running
+                    # out of time is recorded, it is not a failed obligation (coqc has checked the file)
+                    rep.coqchk[t] = {"rc": "timeout", "summary": {}}
+                    rep.notes.append("coqchk did not finish on %s within its time limit" % t)
+                    continue
                 summ = {}
                 for key in ("Axioms", "Constants/Inductives relying on type-in-type",
                             "Constants/Inductives relying on unsafe (co)fixpoints", "Inductives whose positivity is assumed"):
